@@ -630,12 +630,24 @@ func c12ShortFrame(f string) string {
 	return f
 }
 
-// innermost frame of a kustomize package (harness frames are package main)
+// innermost frame of a kustomize package (harness frames are package main). A Must* helper
+// (MustYaml, MustString, MustParse ...) fails on behalf of its caller: the caller is part of the site
+// ("X.MustYaml<-Y.failureDetails"), otherwise every misuse of the helper would share one class.
 func c12KFrame(frames []string) string {
-	for _, f := range frames {
-		if strings.HasPrefix(f, c12KPrefix) {
-			return c12ShortFrame(f)
+	for i, f := range frames {
+		if !strings.HasPrefix(f, c12KPrefix) {
+			continue
 		}
+		short := c12ShortFrame(f)
+		base := short[strings.LastIndex(short, ".")+1:]
+		if strings.HasPrefix(base, "Must") {
+			for _, g := range frames[i+1:] {
+				if strings.HasPrefix(g, c12KPrefix) {
+					return short + "<-" + c12ShortFrame(g)
+				}
+			}
+		}
+		return short
 	}
 	if len(frames) > 0 {
 		return "outside-kustomize:" + c12ShortFrame(frames[0])
